@@ -12,7 +12,9 @@
    Coq's primitive IEEE-754 binary64 floats, so that the model computes bit-for-bit what
    Python computes.  The inward loop is the REPAIRED one (fixes/C20-1: the sma is tested
    before each inward fit); [top_test := false] gives the unrepaired loop (ellipse.py:475-500
-   of the snapshot), kept to state the defect as a refutation. *)
+   of the snapshot), kept to state the defect as a refutation.  The fitter model has the
+   zero-gradient exit of fixes/C20-2 (the snapshot divides by the gradient there and crashes
+   in the integrator). *)
 From Coq Require Import List ZArith Bool QArith Floats Uint63.
 From PV Require Import lib.Cases.
 Import ListNotations.
@@ -331,6 +333,7 @@ Record obs := mkobs {
   o_coeffs : list N;         (* coeffs[1:] (4 numbers)                                          *)
   o_converged : bool;        (* conver*sector_area*std(residual) > |largest|                     *)
   o_fewpts : bool;           (* actual_points < total_points * fflag             -> 1            *)
+  o_gradzero : bool;         (* gradient zero or non-finite (fixes/C20-2)         -> -1           *)
   o_nx : N; o_ny : N;        (* centre computed by a position corrector                          *)
   o_npa : N;                 (* (pa + correction) % pi computed by the angle corrector           *)
   o_corr : N;                (* correction computed by the ellipticity corrector                 *)
@@ -384,6 +387,7 @@ Fixpoint fit_loop (mask : list bool) (inwards : bool) (minit : nat) (i : nat) (o
                     end in
       if o_converged o && (minit - 1 <=? i)%nat then (0%Z, true, g, tr) else
       if o_fewpts o then (1%Z, true, match minamp with Some (_, gm) => gm | None => g end, tr) else
+      if o_gradzero o then ((-1)%Z, true, g, tr) else          (* fixes/C20-2: no corrector is applied *)
       let gc := correct k g o in
       let '(proceed, lexceed') := check_conditions gc o inwards lexceed in
       let g' := normalise gc in
@@ -493,13 +497,14 @@ Definition check_case (c : case) : bool :=
   match c with
   | CSched repaired lin step minsma maxsma maxrit sma0 gsma fix_all stream (kind, isos) calls =>
       let '(r, cs) := sched_model repaired lin step minsma maxsma maxrit sma0 gsma fix_all stream in
-      list_eqb2 call_eqb cs calls
-      && match r with
-         | Ret _ l => (kind =? 0)%Z && list_eqb2 iso_eqb l isos
-         | IndexErr _ => (kind =? 1)%Z
-         | Starved _ => (kind =? 2)%Z
-         | Fuel _ => false
-         end
+      match r with
+      | Ret _ l => list_eqb2 call_eqb cs calls && (kind =? 0)%Z && list_eqb2 iso_eqb l isos
+      | IndexErr _ => list_eqb2 call_eqb cs calls && (kind =? 1)%Z
+      | Starved _ => list_eqb2 call_eqb cs calls && (kind =? 2)%Z
+      (* the model's fuel (400 iterations of one loop) ran out: the real run must have been cut by
+         the harness' cap on fit_isophote calls (kind 3), after the same calls *)
+      | Fuel _ => (kind =? 3)%Z && list_eqb2 call_eqb (firstn (length calls) cs) calls
+      end
   | CPolar x0 y0 pa pts ts tv es ev =>
       let ps := map (fun p => (F (fst p), F (snd p))) pts in
       list_eqb2 pair_eqb (map (polar_s (Ftab ts) (F x0) (F y0) (F pa)) ps) es
